@@ -59,4 +59,31 @@ MUTANTS = [
     dict(name="c02-add-value0-skipped", props=["C02", "C12"], edits=[(HL, "        _add(self.registers, self.seed, self.p, self.m, key)\n", "        if value:\n            _add(self.registers, self.seed, self.p, self.m, key)\n")]),
     dict(name="c02-nlz-shift8-branch", props=["C02"], edits=[(HL, "    y = x >> uint64(8)\n    if y != zero:\n        n = n - uint8(8)", "    y = x >> uint64(8)\n    if y > uint64(1):\n        n = n - uint8(8)")]),
     dict(name="c02-seed-truncated-32", props=["C02", "C10", "C15"], edits=[(HL, "    hash_val = fasthash64(key, seed)\n", "    hash_val = fasthash64(key, seed & uint64(0xFFFFFFFF))\n")]),
+    # ---- C17 / C07
+    dict(name="c17-5m-to-4m", props=["C17", "C07"], edits=[(HL, "        if cardinality <= float64(5 * m):", "        if cardinality <= float64(4 * m):")]),
+    dict(name="c17-bias-table-row-minus-1", props=["C17", "C07"], edits=[(HL, "        self.bias_data = bias_data[int(self.p) - 7, :]", "        self.bias_data = bias_data[int(self.p) - 8, :]")]),
+    dict(name="c17-alpha-p16", props=["C17", "C07"], edits=[(HL, "        self.alpha = np.float64(0.7213 / (1.0 + 1.079 / self.m))", "        self.alpha = np.float64((0.7213 if self.p < 16 else 0.709) / (1.0 + 1.079 / self.m))")]),
+    dict(name="c17-threshold-row-p-ge-12", props=["C17", "C07"], edits=[(HL, "        self.threshold = sub_algorithm_threshold[int(self.p) - 7]", "        self.threshold = sub_algorithm_threshold[min(int(self.p) - 7, 5)]")]),
+    dict(name="c17-no-bias-when-zero-registers", props=["C17", "C07"], edits=[(HL, """            bias = np.interp(est, raw_estimate, bias_data)
+            cardinality = est - bias""", """            cardinality = est""")]),
+    dict(name="c17-linear-counting-uses-m-minus-1", props=["C17", "C07"], edits=[(HL, "    return float64(m) * np.log(float64(m) / float64(n_zero))", "    return float64(m) * np.log(float64(m - 1) / float64(n_zero))")]),
+    # ---- heavy hitters: C03 / C04 / C13
+    dict(name="hh-revert-f1-add", props=["C03", "C04"], edits=[(HH, "        if np.all(key_array == lhh[row, col]) and key_lens[row, col] == key_len:", "        if np.all(key_array == lhh[row, col]):")]),
+    dict(name="hh-revert-f1-maxcount", props=["C03", "C04", "C13"], edits=[(HH, "            and key_lens[row, col] == key_len\n", "")]),
+    dict(name="hh-add-replace-without-subtract", props=["C04"], edits=[(HH, "                lhh_count[row, col] = value - lhh_count[row, col]", "                lhh_count[row, col] = value")]),
+    dict(name="hh-merge-mismatch-keeps-sum", props=["C03", "C04"], edits=[(HH, """                    lhh_count[row, col] = (
+                        other_lhh_count[row, col] - lhh_count[row, col]
+                    )""", """                    lhh_count[row, col] = (
+                        other_lhh_count[row, col] + lhh_count[row, col]
+                    )""")]),
+    dict(name="hh-candidates-row0-only", props=["C04", "C13"], edits=[(HH, "        for row in range(self.depth):\n            for column in range(self.width):", "        for row in range(1):\n            for column in range(self.width):")]),
+    dict(name="hh-cache-ignores-n-added", props=["C13"], edits=[(HH, "        if (self.n_added_sort < self.n_added()) or (self.threshold_sort != threshold):", "        if self.threshold_sort != threshold:")]),
+    dict(name="hh-cache-ignores-threshold", props=["C13"], edits=[(HH, "        if (self.n_added_sort < self.n_added()) or (self.threshold_sort != threshold):", "        if self.n_added_sort < self.n_added():")]),
+    dict(name="hh-most-common-k-plus-1", props=["C13"], edits=[(HH, "        return self.candidate_set.most_common(k)", "        return self.candidate_set.most_common(k + 1)")]),
+    dict(name="hh-threshold-strict", props=["C13", "C04"], edits=[(HH, "                    if max_count >= threshold:", "                    if max_count > threshold:")]),
+    dict(name="hh-add-saturation-dropped", props=["C18"], edits=[(HH, """            if value < uint_maxval - lhh_count[row, col]:
+                lhh_count[row, col] += value
+            else:
+                lhh_count[row, col] = uint_maxval""", """            lhh_count[row, col] += value""")]),
+    dict(name="hh-merge-keeps-equal-other", props=["C04"], edits=[(HH, "                if lhh_count[row, col] >= other_lhh_count[row, col]:", "                if lhh_count[row, col] > other_lhh_count[row, col] + uint32(1):")]),
 ]
